@@ -1102,6 +1102,17 @@ impl<'a> InputIndexer for Utf16Input<'a> {
             return false;
         };
 
+        // The compared text must be whole characters: it may not end (or, going backwards,
+        // start) between the two halves of a surrogate pair, or the cursor would be left there.
+        let far = self.pos_to_offset(if Dir::FORWARD { end } else { start });
+        if far > 0
+            && far < self.input.len()
+            && (0xD800..=0xDBFF).contains(&self.input[far - 1])
+            && (0xDC00..=0xDFFF).contains(&self.input[far])
+        {
+            return false;
+        }
+
         let new_range = &self.input[self.pos_to_offset(start)..self.pos_to_offset(end)];
         let old_range = &self.input[self.pos_to_offset(range.start)..self.pos_to_offset(range.end)];
 
